@@ -284,4 +284,40 @@ theorem rem_case (l r : Int) (hl : InRange l) (_hr : InRange r) :
     · have hd : Spec.InRange (l.tdiv r) := (inRange_iff _).mp (tdiv_inRange l r hl h)
       simp [h0, h, hd, hm, Res.bind, Res.ofOption, Res.Returns, Res.value?]
 
+/-- every arm of `binary_result` against the Spec (stated as the property theorem `binaryResult_exact`) -/
+theorem binaryResult_spec (op : BinaryOperator) (l r : Int) (hl : InRange l) (hr : InRange r) :
+    (binaryResult op l r).Returns ∧ (binaryResult op l r).value? = Spec.arith op l r := by
+  cases op <;>
+    simp only [binaryResult, binaryChecked, Spec.arith, Spec.definedOp, Spec.exactOp, Spec.arithOf,
+      Spec.definedA, Spec.exactA]
+  case Assign => exact ok_some_exact r r True rfl trivial ((inRange_iff r).mp hr)
+  case LogicalOr => exact ok_some_exact _ _ True (boolInt_eq_truth _ _ (by simp)) trivial (truth_inRange _)
+  case LogicalAnd => exact ok_some_exact _ _ True (boolInt_eq_truth _ _ (by simp)) trivial (truth_inRange _)
+  case EqualTo => exact ok_some_exact _ _ True (boolInt_eq_truth _ _ (by simp)) trivial (truth_inRange _)
+  case NotEqualTo => exact ok_some_exact _ _ True (boolInt_eq_truth _ _ (by simp)) trivial (truth_inRange _)
+  case LessThan => exact ok_some_exact _ _ True (boolInt_eq_truth _ _ (by simp)) trivial (truth_inRange _)
+  case GreaterThan => exact ok_some_exact _ _ True (boolInt_eq_truth _ _ (by simp)) trivial (truth_inRange _)
+  case LessThanOrEqualTo => exact ok_some_exact _ _ True (boolInt_eq_truth _ _ (by simp)) trivial (truth_inRange _)
+  case GreaterThanOrEqualTo => exact ok_some_exact _ _ True (boolInt_eq_truth _ _ (by simp)) trivial (truth_inRange _)
+  case BitwiseOr => exact ok_some_exact _ _ True (bitOr_exact l r) trivial (fromRepr_inRange _ (Nat.or_lt_two_pow (toRepr_lt l) (toRepr_lt r)))
+  case BitwiseOrAssign => exact ok_some_exact _ _ True (bitOr_exact l r) trivial (fromRepr_inRange _ (Nat.or_lt_two_pow (toRepr_lt l) (toRepr_lt r)))
+  case BitwiseXor => exact ok_some_exact _ _ True (bitXor_exact l r) trivial (fromRepr_inRange _ (Nat.xor_lt_two_pow (toRepr_lt l) (toRepr_lt r)))
+  case BitwiseXorAssign => exact ok_some_exact _ _ True (bitXor_exact l r) trivial (fromRepr_inRange _ (Nat.xor_lt_two_pow (toRepr_lt l) (toRepr_lt r)))
+  case BitwiseAnd => exact ok_some_exact _ _ True (bitAnd_exact l r) trivial (fromRepr_inRange _ (Nat.and_lt_two_pow _ (toRepr_lt r)))
+  case BitwiseAndAssign => exact ok_some_exact _ _ True (bitAnd_exact l r) trivial (fromRepr_inRange _ (Nat.and_lt_two_pow _ (toRepr_lt r)))
+  case Add => exact ok_checked_exact _ True trivial
+  case AddAssign => exact ok_checked_exact _ True trivial
+  case Subtract => exact ok_checked_exact _ True trivial
+  case SubtractAssign => exact ok_checked_exact _ True trivial
+  case Multiply => exact ok_checked_exact _ True trivial
+  case MultiplyAssign => exact ok_checked_exact _ True trivial
+  case ShiftLeft => exact shl_case l r hl hr
+  case ShiftLeftAssign => exact shl_case l r hl hr
+  case ShiftRight => exact shr_case l r hl hr
+  case ShiftRightAssign => exact shr_case l r hl hr
+  case Divide => exact div_case l r hl hr
+  case DivideAssign => exact div_case l r hl hr
+  case Remainder => exact rem_case l r hl hr
+  case RemainderAssign => exact rem_case l r hl hr
+
 end YashModel.Arith
